@@ -1154,6 +1154,89 @@ def tag_known(prog, outcomes, f, cache):
     return None
 
 
+# ----------------------------------------------------------------------------- model semantics cross-checks
+
+
+def _norm_trace_model(tr):
+    out = []
+    for e in tr or []:
+        if e[0] == "init":
+            out.append(["g", "init", 0])
+        elif e[0] == "g":
+            out.append(["g", GATES[e[1]].lower(), 0])
+        elif e[0] == "meas":
+            out.append(["meas", 0, e[1]])
+    return out
+
+
+SKIP_INVALID = ("value outside 32 bits", "step budget")
+
+
+def cross_hsem(driver, prog, outcomes, model=None, fuel=4000):
+    """Lean `HostSem` (driver op sdk.hsem) vs the direct Python interpreter `Direct` on one program.
+    Compared only when the model's builder accepts the program (build errors are not run-time
+    semantics).  Returns (status, detail): status in ok / skip / differ."""
+    if model is None:
+        model = driver.call({"op": "sdk.run", "p": prog})
+    if model.get("err") is not None:
+        return "skip", "build error"
+    try:
+        d = Direct(outcomes).run(prog)
+        dres = {"ok": True, "views": d.views, "trace": d.trace}
+    except Invalid as e:
+        if any(str(e).startswith(x) for x in SKIP_INVALID):
+            return "skip", str(e)
+        dres = {"ok": False, "why": str(e)}
+    h = driver.call({"op": "sdk.hsem", "p": prog, "outs": list(outcomes), "fuel": fuel})
+    if not dres["ok"]:
+        if h["ok"]:
+            return "differ", {"what": "Direct rejects the program, HostSem evaluates it", "direct": dres["why"]}
+        return "ok", "both invalid"
+    if not h["ok"]:
+        return "differ", {"what": "HostSem rejects the program, Direct evaluates it"}
+    hviews = [{"arr": {a: l for a, l in v["arr"]}, "reg": {hh: x for hh, x in v["reg"]}} for v in h["views"]]
+    if hviews != dres["views"]:
+        k = next((i for i, (x, y) in enumerate(zip(hviews, dres["views"])) if x != y), -1)
+        return "differ", {"what": "view after flush %d" % k,
+                          "hostsem": hviews[k] if k >= 0 else len(hviews),
+                          "direct": dres["views"][k] if k >= 0 else len(dres["views"])}
+    if _norm_trace_model(h["trace"]) != dres["trace"]:
+        return "differ", {"what": "trace", "hostsem": _norm_trace_model(h["trace"])[:12], "direct": dres["trace"][:12]}
+    return "ok", None
+
+
+def cross_exec(driver, prog, outcomes, fuel=60000):
+    """Lean `ProtoExec` run of the MODEL's proto-subroutines (driver op sdk.exec) vs the real SDK ->
+    assembler -> bytes -> real Executor on the same program: arrays, handle registers, trace after
+    every flush.  Validates the hand-written label-level semantics (and, indirectly, C03's step)."""
+    e = driver.call({"op": "sdk.exec", "p": prog, "outs": list(outcomes), "fuel": fuel})
+    if e.get("builderr"):
+        return "skip", "build error"
+    r = RealRun(execute=True, outcomes=outcomes).run(prog, read=True)
+    if r.err is not None:
+        if e["ok"]:
+            if r.err[1] == "steplimit":
+                return "skip", "steplimit"
+            return "differ", {"what": "real controller faults, ProtoExec runs", "real": r.err, "exec_err": r.exec_err}
+        return "ok", "both fault"
+    if not e["ok"]:
+        return "differ", {"what": "ProtoExec faults / does not halt, real controller runs"}
+    states = [x for x in e["states"] if x is not None]
+    reads = r.reads
+    # flushes that sent nothing leave no state on either side
+    real_states = [rv for rv, sub in zip(reads, r.subs) if sub is not None]
+    if len(states) != len(real_states):
+        return "differ", {"what": "number of executed subroutines", "model": len(states), "real": len(real_states)}
+    for k, (ms, rv) in enumerate(zip(states, real_states)):
+        marr = {a: l for a, l in ms["arr"]}
+        rarr = {a: v for a, v in rv["ctrl"]["arrays"].items() if v is not None}
+        if marr != rarr:
+            return "differ", {"what": "arrays after subroutine %d" % k, "model": marr, "real": rarr}
+    if _norm_trace_model(e["trace"]) != r.trace():
+        return "differ", {"what": "trace", "model": _norm_trace_model(e["trace"])[:12], "real": r.trace()[:12]}
+    return "ok", None
+
+
 # ----------------------------------------------------------------------------- shrinking
 
 
